@@ -249,6 +249,10 @@ class CallMixin:
             return VBool(isinstance(v, (VReal, VInt)))
         if name == "real":
             return VReal(self.to_real(self.ev(node.args[0], st)))
+        if name and name.startswith("cast_") and len(node.args) == 1:
+            # cast_<from>_<to>(x): the C cast the writer applies when the array dtype differs from the file's sample type
+            # (the same uninterpreted function as pvc/wrmodel.py::cwrite uses; deterministic, otherwise unspecified)
+            return VReal(self.uf(name, [self.to_real(self.ev(node.args[0], st))], REAL))
         if name in self.specs:
             args = [self.ev(a, st) for a in node.args]
             return self.specs[name].apply(self, st, args, line)
